@@ -629,6 +629,51 @@ def gen_boundary(n, seed, watch=False):
     return out
 
 
+def gen_c12_bigtxn(rng):
+    """Transactions that change many keys at once (the set of channels to close grows past 64 entries, the
+    threshold at which the implementation stops reusing the set): watches on some of the keys and prefixes, one
+    transaction replacing/deleting 30-140 keys, Commit then Notify (the order statedb uses) or CommitAndNotify,
+    then a small transaction on the same lineage (the transaction object is reused)."""
+    ps = PartScript(rng)
+    n = rng.choice([30, 60, 64, 65, 66, 70, 100, 140])
+    keys = [[1 + i // 12, 1 + i % 12] for i in range(n)]
+    t0 = ps.new_tree_id()
+    ps.add(op="new", t=t0, ro=rng.random() < 0.15)
+    x = ps.new_txn_id()
+    ps.add(op="begin", x=x, t=t0, lin=True)
+    for k in keys:
+        ps.add(op="insert", x=x, k=k, v=rng.randint(1, 9), w=0)
+    head = ps.new_tree_id()
+    ps.add(op="commitnotify", x=x, t=head)
+    for rnd in range(rng.randint(1, 2)):
+        for _ in range(rng.randint(3, 8)):
+            k = rng.choice(keys)
+            r = rng.random()
+            if r < 0.6:
+                ps.add(op="get", s=tree_src(head), k=rng.choice([k, k + [1], [99]]), w=ps.new_chan_id())
+            elif r < 0.9:
+                ps.add(op="prefix", s=tree_src(head), k=k[:rng.randint(0, 2)], f=ps.new_iter_id(), w=ps.new_chan_id())
+            else:
+                ps.add(op="rootwatch", s=tree_src(head), w=ps.new_chan_id())
+        x = ps.new_txn_id()
+        ps.add(op="begin", x=x, t=head, lin=True)
+        m = n if rnd == 0 else rng.randint(1, 3)
+        for k in (keys if m == n else rng.sample(keys, m)):
+            if rng.random() < 0.75:
+                ps.add(op="insert", x=x, k=k, v=rng.randint(1, 9), w=0)
+            else:
+                ps.add(op="delete", x=x, k=k)
+        nt = ps.new_tree_id()
+        if rng.random() < 0.75:
+            ps.add(op="commit", x=x, t=nt)
+            ps.add(op="notify", x=x)
+        else:
+            ps.add(op="commitnotify", x=x, t=nt)
+        head = nt
+    ps.add(op="chans")
+    return ps.ops
+
+
 def generate(kind, n, seed):
     if kind == "c12pairs":
         return gen_c12_pairs(n, seed)
@@ -639,5 +684,5 @@ def generate(kind, n, seed):
     if kind == "boundaryw":
         return gen_boundary(n, seed, watch=True)
     rng = random.Random(seed)
-    fn = {"c11": gen_c11, "c12": gen_c12, "c12inner": gen_c12_inner, "c12dense": gen_c12_dense}[kind]
+    fn = {"c11": gen_c11, "c12": gen_c12, "c12inner": gen_c12_inner, "c12dense": gen_c12_dense, "c12bigtxn": gen_c12_bigtxn}[kind]
     return [fn(rng) for _ in range(n)]
